@@ -75,7 +75,8 @@ inline std::vector<uint64_t> boundaryValues(uint64_t orig, int width, uint64_t f
 	                                0xFFFFFFF8ull, 0xFFFFFFF9ull, 0xFFFFFFFAull, 0xFFFFFFFBull, 0xFFFFFFFCull, 0xFFFFFFFDull, 0xFFFFFFFEull, 0xFFFFFFFFull};
 	std::vector<uint64_t> v(base, base + sizeof base / sizeof base[0]);
 	const uint64_t hi = 0x80000000ull;
-	const uint64_t extra[] = {fileLen - 1, fileLen, fileLen + 1, remaining - 1, remaining, remaining + 1, orig - 1, orig + 1, orig ^ hi, orig + 14, orig - 14, orig + 4, orig * 2,
+	// "same low bits, one higher bit set": survives any check that silently truncates the field to 8/16/24/30 bits
+	const uint64_t extra[] = {orig ^ 0x100, orig ^ 0x10000, orig ^ 0x1000000, orig ^ 0x40000000ull, orig + 0x100, orig + 0x10000, fileLen - 1, fileLen, fileLen + 1, remaining - 1, remaining, remaining + 1, orig - 1, orig + 1, orig ^ hi, orig + 14, orig - 14, orig + 4, orig * 2,
 	                          (fileLen | hi), (remaining | hi), ((fileLen + 1) | hi)};
 	for (uint64_t x : extra) v.push_back(x);
 	uint64_t mask = width >= 8 ? ~0ull : ((1ull << (8 * width)) - 1);
